@@ -790,7 +790,10 @@ class Interp:
         if isinstance(it, VDict):
             return list(it.items.keys())
         if isinstance(it, self.B.ConcreteIter):
-            return list(it.items)
+            items = list(it.items)
+            if getattr(it, "oneshot", False):
+                it.items = []         # exhausted by this iteration
+            return items
         if isinstance(it, GenExp):
             return self.B.genexp_concrete(self, it)
         return None
